@@ -222,7 +222,7 @@ class C07(Check):
     pid = "C07"
     quick_cases = 2600
     lean_files = ([os.path.join(paths.LEAN, "Verif", "C07", f) for f in
-                   ("Model.lean", "Driver.lean", "Props.lean", "Lemmas.lean", "WfLemmas.lean", "DmrsLemmas.lean")]
+                   ("Model.lean", "Driver.lean", "Props.lean", "Lemmas.lean", "WfLemmas.lean", "DmrsLemmas.lean", "ConnLemmas.lean", "PlausLemmas.lean")]
                   + [os.path.join(paths.LEAN, "Verif", "Common", f) for f in
                      ("Sem.lean", "SemJson.lean", "SemLemmas.lean")])
     thorough_cases = 60000
